@@ -130,6 +130,12 @@ DOC_LEN = {"cmpp20.PduConnect": 39, "cmpp20.PduConnectResp": 30, "cmpp20.PduTerm
 
 def tla_str(s): return '"' + s + '"'
 
+def resp_of(n):
+    """the protocol's response type of a request type (None for responses)"""
+    if n.endswith("Resp") or n in ("smpp34.GenericNack", "cmpp.SubPduDeliveryContent"): return None
+    if n == "smpp34.Unbind": return "smpp34.UnBindResp"
+    return n + "Resp"
+
 def main():
     here = os.path.dirname(os.path.dirname(os.path.abspath(__file__)))
     out = []
@@ -164,6 +170,23 @@ def main():
         first = False
     out.append("")
     out.append("HasHeader(t) == t # \"cmpp.SubPduDeliveryContent\"")
+    out.append("")
+    out.append("\\* request -> response type as the protocols define it (\"\" for responses)")
+    out.append("RespType(t) ==")
+    first = True
+    for n in names:
+        r = resp_of(n)
+        assert r is None or r in L, (n, r)
+        out.append("  %s t = %s -> %s" % ("CASE" if first else "  []", tla_str(n), tla_str(r or "")))
+        first = False
+    out.append("")
+    out.append("\\* SMPP 3.4 bind comes in three flavours sharing one layout: receiver 1, transmitter 2, transceiver 9")
+    out.append("BindCmds == { <<0, 0, 0, 1>>, <<0, 0, 0, 2>>, <<0, 0, 0, 9>> }")
+    out.append("Pkg(t) ==")
+    first = True
+    for n in names:
+        out.append("  %s t = %s -> %s" % ("CASE" if first else "  []", tla_str(n), tla_str(n.split(".")[0])))
+        first = False
     out.append("")
     out.append("\\* total lengths the documents state for PDUs without a variable part")
     out.append("DocLen == << " + ", ".join("<<%s, %d>>" % (tla_str(n), DOC_LEN[n]) for n in sorted(DOC_LEN)) + " >>")
